@@ -8,7 +8,8 @@
    the C++ reports (tools/c10.py).
 
    Statement-by-statement correspondence:
-     * tr_border      borderDistance: p = 2 d'z / d'd, q = (z'z - delta^2) / d'd, tau = -p/2 + sqrt((p/2)^2 - q), the
+     * tr_border      borderDistance (tr_border_p, tr_border_arg: p and the argument of the square root):
+                      p = 2 d'z / d'd, q = (z'z - delta^2) / d'd, tau = -p/2 + sqrt((p/2)^2 - q), the
                       non-negative root of tau^2 + p tau + q = 0, i.e. of |z + tau d| = delta.
      * tr_border_old  the formula before the repair fd35712b: tau = +p/2 + sqrt((p/2)^2 - q).  Equal to tr_border in the
                       first CG iteration (z = 0, p = 0), too long by p afterwards: the step left the trust region and the
@@ -64,28 +65,27 @@ Section GenericTR.
   Definition g_normsq (v : gvec) : T := gdot T O v v.       (* norm_sqr *)
   Definition g_mv (H : list gvec) (v : gvec) : gvec := map (fun r => gdot T O r v) H.      (* prod(hessian, v) *)
 
-  (* borderDistance(z, direction, delta) *)
+  (* borderDistance(z, direction, delta): p, the argument of the square root, the result *)
+  Definition tr_border_p (z d : gvec) : T := (g_two * gdot T O d z) / g_normsq d.
+  Definition tr_border_arg (z d : gvec) (delta : T) : T :=
+    let p := tr_border_p z d in
+    let q := (g_normsq z - g_sqr delta) / g_normsq d in
+    g_sqr (p / g_two) - q.
   Definition tr_border (z d : gvec) (delta : T) : T :=
-    let z2 := g_normsq z in
-    let d2 := g_normsq d in
-    let p := (g_two * gdot T O d z) / d2 in
-    let q := (z2 - g_sqr delta) / d2 in
-    o_neg O p / g_two + o_sqrt O (g_sqr (p / g_two) - q).
+    o_neg O (tr_border_p z d) / g_two + o_sqrt O (tr_border_arg z d delta).
 
   (* the formula before the repair fd35712b *)
   Definition tr_border_old (z d : gvec) (delta : T) : T :=
-    let z2 := g_normsq z in
-    let d2 := g_normsq d in
-    let p := (g_two * gdot T O d z) / d2 in
-    let q := (z2 - g_sqr delta) / d2 in
-    p / g_two + o_sqrt O (g_sqr (p / g_two) - q).
+    tr_border_p z d / g_two + o_sqrt O (tr_border_arg z d delta).
 
   (* errorDifference(step, residual, gradient) *)
   Definition tr_errdiff (step residual gradient : gvec) : T :=
     (gdot T O residual step + gdot T O gradient step) / g_two.
 
-  (* result of trustRegionCG: solution.first, solution.second; exit code and number of completed iterations *)
-  Record tr_cg_result : Type := mkCG { cg_pred : T; cg_step : gvec; cg_exit : nat; cg_iters : nat }.
+  (* result of trustRegionCG: solution.first, solution.second; not in the C++: exit code, number of completed iterations, and
+     the number whose square root borderDistance took (exits 1 and 2; 0 otherwise) - the theorems about a run need the
+     square-root function to be right only there *)
+  Record tr_cg_result : Type := mkCG { cg_pred : T; cg_step : gvec; cg_exit : nat; cg_iters : nat; cg_sqarg : T }.
 
   Section CGLoop.
   Variable border : gvec -> gvec -> T -> T.
@@ -93,7 +93,7 @@ Section GenericTR.
   Fixpoint tr_cg_loop (fuel : nat) (H : list gvec) (g : gvec) (tol2 delta : T)
                       (step residual direction : gvec) (cur : T) (it : nat) : tr_cg_result :=
     match fuel with
-    | Datatypes.O => mkCG 0 step 4 it
+    | Datatypes.O => mkCG 0 step 4 it 0
     | S k =>
       let Hdir := g_mv H direction in
       let normH := gdot T O direction Hdir in
@@ -101,7 +101,7 @@ Section GenericTR.
         let tau := border step direction delta in
         let step' := gvadd T O step (gvscale T O tau direction) in
         let res' := gvadd T O residual (gvscale T O tau Hdir) in
-        mkCG (tr_errdiff step' res' g) step' 1 it
+        mkCG (tr_errdiff step' res' g) step' 1 it (tr_border_arg step direction delta)
       else
         let alpha := cur / normH in
         let cand := gvadd T O step (gvscale T O alpha direction) in
@@ -109,11 +109,11 @@ Section GenericTR.
           let tau := border step direction delta in
           let step' := gvadd T O step (gvscale T O tau direction) in
           let res' := gvadd T O residual (gvscale T O tau Hdir) in
-          mkCG (tr_errdiff step' res' g) step' 2 it
+          mkCG (tr_errdiff step' res' g) step' 2 it (tr_border_arg step direction delta)
         else
           let res' := gvadd T O residual (gvscale T O alpha Hdir) in
           let nr2 := g_normsq res' in
-          if nr2 <? tol2 then mkCG (tr_errdiff cand res' g) cand 3 (S it)
+          if nr2 <? tol2 then mkCG (tr_errdiff cand res' g) cand 3 (S it) 0
           else
             let beta := nr2 / cur in
             let dir' := gvsub T O (gvscale T O beta direction) res' in
@@ -123,7 +123,7 @@ Section GenericTR.
   (* trustRegionCG(hessian, gradient, tolerance, delta) *)
   Definition tr_cg_with (H : list gvec) (g : gvec) (tol delta : T) : tr_cg_result :=
     let cur := g_normsq g in
-    if cur <? g_sqr tol then mkCG 0 (map (fun _ => 0) g) Datatypes.O Datatypes.O
+    if cur <? g_sqr tol then mkCG 0 (map (fun _ => 0) g) Datatypes.O Datatypes.O 0
     else tr_cg_loop (10 * length g) H g (g_sqr tol) delta (map (fun _ => 0) g) g (gvneg T O g) cur Datatypes.O.
   End CGLoop.
 
@@ -196,7 +196,7 @@ Section GenericTR.
       (r, rho, leb (tr_ratio s) rho).
 End GenericTR.
 
-Arguments mkCG {T}. Arguments cg_pred {T}. Arguments cg_step {T}. Arguments cg_exit {T}. Arguments cg_iters {T}.
+Arguments mkCG {T}. Arguments cg_pred {T}. Arguments cg_step {T}. Arguments cg_exit {T}. Arguments cg_iters {T}. Arguments cg_sqarg {T}.
 Arguments mkTR {T}. Arguments tr_pt {T}. Arguments tr_val {T}. Arguments tr_delta {T}. Arguments tr_ratio {T}.
 Arguments tr_grad {T}. Arguments tr_hess {T}.
 
